@@ -989,13 +989,37 @@ def socket_close_confined(ctx: Ctx, rule: str):
                    "user API while no I/O loop runs), never from a connection's reader/writer thread",
              floor=3)
     cx = _contexts(model, fault_effects_of(model))
+    # tolerated when the I/O loop survives a descriptor that vanished under it: its select() call
+    # sits in a try that catches ValueError and OSError and goes round the loop again
+    nc_ = model.cls("node.node", "Node")
+    hc_ = nc_.methods.get("_handle_connections")
+    guarded_select = False
+    if hc_ is not None:
+        par_ = A.parents(hc_.node)
+        for c_ in ast.walk(hc_.node):
+            if isinstance(c_, ast.Call) and A.call_name(c_) == "select.select":
+                x = c_
+                while x in par_:
+                    up = par_[x]
+                    if isinstance(up, ast.Try) and any(x is b or x in list(ast.walk(b)) for b in up.body):
+                        names = set()
+                        for h in up.handlers:
+                            if h.type is None:
+                                names |= {"ValueError", "OSError"}
+                            else:
+                                for e_ in (h.type.elts if isinstance(h.type, ast.Tuple) else [h.type]):
+                                    names.add(ast.unparse(e_))
+                        if ({"ValueError", "OSError"} <= names or "Exception" in names
+                                or {"ValueError", "socket.error"} <= names):
+                            guarded_select = True
+                    x = up
     for c in call_sites(model, "close_connection_socket"):
         ctxs = cx.get(id(c.func.node), {"api"})
         cons = f"{c.func.qualname}:close_connection_socket@thread"
         ctx.use(c.func)
         ctx.inst(cons, rule=rule, sample={"where": c.where, "contexts": sorted(ctxs)})
         foreign = ctxs & {"conn-reader", "conn-writer", "app-worker"}
-        if foreign:
+        if foreign and not guarded_select:
             ctx.fail(cons, c.where, f"{c.func.qualname} calls close_connection_socket in thread "
                      f"context(s) {sorted(foreign)}: the socket is closed (fileno -1) while the node "
                      f"thread may be between building its select lists and select(), which then raises "
